@@ -179,6 +179,8 @@ thread_local! {
     static INNER_LOG: RefCell<Vec<Value>> = const { RefCell::new(Vec::new()) };
     /// iterator kept alive across the following calls of a history (harness state only)
     static HELD_ITER: RefCell<Option<HeldIter>> = const { RefCell::new(None) };
+    /// payloads of type `Dropper` dropped on this thread
+    static DROPS: Cell<u64> = const { Cell::new(0) };
     /// number of real nested executions on this thread (evidence)
     static NESTED_EXECS: Cell<u64> = const { Cell::new(0) };
 }
@@ -332,11 +334,25 @@ const SHARED_OK: &str = "first: &a x\nitems: [*a, &b y, *b, plain, &c x]\ntail: 
 /// two anchors were stored and one alias was served
 const SHARED_FAIL: &str = "first: &a x\nitems: [*a, &b y, *b, &c [1, 2]]\ntail: *b\n";
 
+/// Strong count of each sharing class (taken at its first member) while the whole result is
+/// alive: an allocation that something outside the result still owns shows a larger count.
+fn strong_per_class(cls: &[usize], counts: impl IntoIterator<Item = usize>) -> Vec<usize> {
+    let mut out: Vec<usize> = Vec::new();
+    for (c, n) in cls.iter().zip(counts) {
+        if *c == out.len() {
+            out.push(n);
+        }
+    }
+    out
+}
+
 fn strs_out<'a>(all: impl IntoIterator<Item = &'a RcAnchor<String>>) -> Value {
     let all: Vec<&RcAnchor<String>> = all.into_iter().collect();
+    let cls = classes(all.iter().map(|a| Rc::as_ptr(&a.0) as usize));
     json!({
         "values": all.iter().map(|a| (*a.0).clone()).collect::<Vec<String>>(),
-        "classes": classes(all.iter().map(|a| Rc::as_ptr(&a.0) as usize)),
+        "strong": strong_per_class(&cls, all.iter().map(|a| Rc::strong_count(&a.0))),
+        "classes": cls,
     })
 }
 
@@ -440,6 +456,19 @@ struct PanicDoc {
     boom: RcAnchor<BoomMap>,
 }
 
+// --- payload with a Drop counter
+struct Dropper(String);
+impl<'de> Deserialize<'de> for Dropper {
+    fn deserialize<D: Deserializer<'de>>(d: D) -> Result<Self, D::Error> {
+        String::deserialize(d).map(Dropper)
+    }
+}
+impl Drop for Dropper {
+    fn drop(&mut self) {
+        let _ = DROPS.try_with(|d| d.set(d.get() + 1));
+    }
+}
+
 // --- serialisation
 #[derive(Serialize)]
 struct SerDoc {
@@ -493,7 +522,50 @@ impl<'de> Deserialize<'de> for NestFail {
     }
 }
 
-const NEST_KINDS: &[&str] = &["plain", "in-anchored-ctx", "then-fail", "weak-after", "arc", "recursive", "in-seq-of-anchors"];
+const NEST_KINDS: &[&str] = &[
+    "plain",
+    "in-anchored-ctx",
+    "then-fail",
+    "weak-after",
+    "arc",
+    "recursive",
+    "in-seq-of-anchors",
+    // the nested calls come FIRST: before the outer document stored any anchor, outside any wrapper
+    "first-rc",
+    "first-arc",
+    "first-rc-u32",
+    "first-in-seq",
+    "first-recursive",
+];
+
+#[derive(Deserialize)]
+struct OuterFirst {
+    #[allow(dead_code)]
+    n: NestV,
+    pre: RcAnchor<String>,
+    post: RcAnchor<String>,
+    more: Vec<RcAnchor<String>>,
+}
+#[derive(Deserialize)]
+struct OuterFirstArc {
+    #[allow(dead_code)]
+    n: NestV,
+    pre: ArcAnchor<String>,
+    post: ArcAnchor<String>,
+}
+#[derive(Deserialize)]
+struct OuterFirstU32 {
+    #[allow(dead_code)]
+    n: NestV,
+    pre: RcAnchor<u32>,
+    post: RcAnchor<u32>,
+}
+#[derive(Deserialize)]
+struct KingdomFirst {
+    #[allow(dead_code)]
+    n: NestV,
+    king: RcRecursive<King>,
+}
 
 #[derive(Deserialize)]
 struct OuterPlain {
@@ -578,7 +650,12 @@ fn nest_doc(k: usize, inner: &[Call]) -> String {
         3 => format!("pre: &a pv\nn: \"{list}\"\nw: *a\n"),
         4 => format!("pre: &a pv\nn: \"{list}\"\npost: *a\nw: *a\n"),
         5 => format!("king: &root\n  name: Aurelian\n  n: \"{list}\"\n  coronator: *root\n"),
-        _ => format!("- &a pv\n- *a\n- {{n: \"{list}\"}}\n- *a\n- &b q\n- {{n: \"{list}\"}}\n- *b\n- *a\n"),
+        6 => format!("- &a pv\n- *a\n- {{n: \"{list}\"}}\n- *a\n- &b q\n- {{n: \"{list}\"}}\n- *b\n- *a\n"),
+        7 => format!("n: \"{list}\"\npre: &a outer-value\npost: *a\nmore: [&b q, *b, *a, r]\n"),
+        8 => format!("n: \"{list}\"\npre: &a outer-value\npost: *a\n"),
+        9 => format!("n: \"{list}\"\npre: &a 41\npost: *a\n"),
+        10 => format!("- {{n: \"{list}\"}}\n- &a outer-value\n- *a\n- &b q\n- *b\n- r\n"),
+        _ => format!("n: \"{list}\"\nking: &root\n  name: Outer\n  coronator: *root\n"),
     }
 }
 
@@ -645,7 +722,41 @@ fn run_nest(k: usize, e: usize, inner: &[Call]) -> Value {
                 Err(e) => err_json(&e),
             }
         }
+        7 => match serde_saphyr::from_str::<OuterFirst>(&doc) {
+            Ok(d) => json!({"ok": strs_out(std::iter::once(&d.pre).chain(std::iter::once(&d.post)).chain(d.more.iter()))}),
+            Err(e) => err_json(&e),
+        },
+        8 => match serde_saphyr::from_str::<OuterFirstArc>(&doc) {
+            Ok(d) => json!({"ok": {
+                "values": [(*d.pre.0).clone(), (*d.post.0).clone()],
+                "strong_counts": [Arc::strong_count(&d.pre.0), Arc::strong_count(&d.post.0)],
+                "classes": classes([Arc::as_ptr(&d.pre.0) as usize, Arc::as_ptr(&d.post.0) as usize]),
+            }}),
+            Err(e) => err_json(&e),
+        },
+        9 => match serde_saphyr::from_str::<OuterFirstU32>(&doc) {
+            Ok(d) => json!({"ok": {
+                "values": [*d.pre.0, *d.post.0],
+                "strong_counts": [Rc::strong_count(&d.pre.0), Rc::strong_count(&d.post.0)],
+                "classes": classes([Rc::as_ptr(&d.pre.0) as usize, Rc::as_ptr(&d.post.0) as usize]),
+            }}),
+            Err(e) => err_json(&e),
+        },
+        11 => match serde_saphyr::from_str::<KingdomFirst>(&doc) {
+            Ok(d) => {
+                let strong = Rc::strong_count(&d.king.0);
+                let king = d.king.borrow();
+                let cor = king.coronator.upgrade();
+                json!({"ok": {
+                    "values": [king.name.clone(), cor.as_ref().map(|c| c.borrow().name.clone()).unwrap_or_else(|| "<dangling>".into())],
+                    "strong_counts": [strong],
+                    "classes": classes([Rc::as_ptr(&d.king.0) as usize, cor.as_ref().map(|c| Rc::as_ptr(&c.0) as usize).unwrap_or(0)]),
+                }})
+            }
+            Err(e) => err_json(&e),
+        },
         _ => {
+            // 6 and 10: a sequence whose map items perform the nested calls
             match serde_saphyr::from_str::<Vec<SeqItem>>(&doc) {
                 Ok(v) => {
                     let strs: Vec<&RcAnchor<String>> = v
@@ -691,10 +802,14 @@ fn budget_call(max_nodes: Option<usize>, replay_limit: Option<usize>, doc: &'sta
     }
     let r = serde_saphyr::from_str_with_options::<Vec<RcAnchor<Vec<String>>>>(doc, o);
     let mut out = match r {
-        Ok(v) => json!({"ok": {
-            "values": v.iter().map(|a| (*a.0).clone()).collect::<Vec<_>>(),
-            "classes": classes(v.iter().map(|a| Rc::as_ptr(&a.0) as usize)),
-        }}),
+        Ok(v) => {
+            let cls = classes(v.iter().map(|a| Rc::as_ptr(&a.0) as usize));
+            json!({"ok": {
+                "values": v.iter().map(|a| (*a.0).clone()).collect::<Vec<_>>(),
+                "strong": strong_per_class(&cls, v.iter().map(|a| Rc::strong_count(&a.0))),
+                "classes": cls,
+            }})
+        }
         Err(e) => err_json(&e),
     };
     out["report"] = json!(rep.borrow().clone());
@@ -717,9 +832,11 @@ fn build_table() -> Vec<BaseCall> {
         false,
         Box::new(|| match serde_saphyr::from_str::<ArcDoc>("strong:\n  - &p {x: 1, y: 2}\n  - *p\n  - {x: 1, y: 2}\nweak: *p\n") {
             Ok(d) => {
+                let strong: Vec<usize> = d.strong.iter().map(|a| Arc::strong_count(&a.0)).collect();
                 let up = d.weak.upgrade();
                 json!({"ok": {
                     "values": d.strong.iter().map(|a| json!([a.0.x, a.0.y])).collect::<Vec<_>>(),
+                    "strong_counts": strong,
                     "classes": classes(d.strong.iter().map(|a| Arc::as_ptr(&a.0) as usize).chain(std::iter::once(up.as_ref().map(|u| Arc::as_ptr(u) as usize).unwrap_or(0)))),
                 }})
             }
@@ -737,6 +854,7 @@ fn build_table() -> Vec<BaseCall> {
                 let cor = king.coronator.upgrade();
                 json!({"ok": {
                     "values": [king.name.clone(), cor.as_ref().map(|c| c.borrow().name.clone()).unwrap_or_else(|| "<dangling>".into())],
+                    "strong_counts": [Rc::strong_count(&d.king.0)],
                     "classes": classes([Rc::as_ptr(&d.king.0) as usize, cor.as_ref().map(|c| Rc::as_ptr(&c.0) as usize).unwrap_or(0)]),
                 }})
             }
@@ -857,14 +975,58 @@ fn build_table() -> Vec<BaseCall> {
         true,
         false,
         Box::new(|| match serde_saphyr::from_str::<Vec<RcAnchor<u32>>>("- &z 7\n- *z\n- 7\n") {
-            Ok(v) => json!({"ok": {
-                "values": v.iter().map(|a| *a.0).collect::<Vec<u32>>(),
-                "classes": classes(v.iter().map(|a| Rc::as_ptr(&a.0) as usize)),
-            }}),
+            Ok(v) => {
+                let cls = classes(v.iter().map(|a| Rc::as_ptr(&a.0) as usize));
+                json!({"ok": {
+                    "values": v.iter().map(|a| *a.0).collect::<Vec<u32>>(),
+                    "strong": strong_per_class(&cls, v.iter().map(|a| Rc::strong_count(&a.0))),
+                    "classes": cls,
+                }})
+            }
             Err(e) => err_json(&e),
         }),
     );
+    // 15: payload with a Drop counter — how many payloads die during the parse (the value read for
+    //     an alias is dropped) and how many when the result is dropped (all of them, if nothing else
+    //     keeps an allocation alive)
+    add(
+        "ok-shared-dropper",
+        true,
+        false,
+        Box::new(|| {
+            let before = DROPS.with(|d| d.get());
+            match serde_saphyr::from_str::<Vec<RcAnchor<Dropper>>>("- &a dx\n- *a\n- dy\n- &b dz\n- *b\n- *a\n") {
+                Ok(v) => {
+                    let during = DROPS.with(|d| d.get()) - before;
+                    let cls = classes(v.iter().map(|a| Rc::as_ptr(&a.0) as usize));
+                    let values: Vec<String> = v.iter().map(|a| a.0.0.clone()).collect();
+                    let strong = strong_per_class(&cls, v.iter().map(|a| Rc::strong_count(&a.0)));
+                    let mid = DROPS.with(|d| d.get());
+                    drop(v);
+                    let on_result_drop = DROPS.with(|d| d.get()) - mid;
+                    json!({"ok": {"values": values, "strong": strong, "classes": cls, "payloads_dropped_during_parse": during, "payloads_dropped_with_result": on_result_drop}})
+                }
+                Err(e) => err_json(&e),
+            }
+        }),
+    );
     // ---- non-core (pairs, random histories, nested lists)
+    add(
+        "ok-shared-arc-string",
+        false,
+        false,
+        Box::new(|| match serde_saphyr::from_str::<Vec<ArcAnchor<String>>>("- &a inner-arc\n- *a\n- other\n") {
+            Ok(v) => {
+                let cls = classes(v.iter().map(|a| Arc::as_ptr(&a.0) as usize));
+                json!({"ok": {
+                    "values": v.iter().map(|a| (*a.0).clone()).collect::<Vec<String>>(),
+                    "strong": strong_per_class(&cls, v.iter().map(|a| Arc::strong_count(&a.0))),
+                    "classes": cls,
+                }})
+            }
+            Err(e) => err_json(&e),
+        }),
+    );
     add("iter-abandoned-after-2", false, true, {
         Box::new(|| {
             let mut rd = STREAM.as_bytes();
@@ -1070,7 +1232,9 @@ fn is_lost_outer_anchor_entries(constant: &Value, real: &Value) -> Option<&'stat
         }
         for (k, cv) in co {
             let rv = ro.get(k)?;
-            if k.starts_with("classes") {
+            if k.starts_with("strong") {
+                continue; // counts follow the partition
+            } else if k.starts_with("classes") {
                 let (cl, rl) = (labels(cv)?, labels(rv)?);
                 if !refines(&rl, &cl) {
                     return None;
@@ -1317,6 +1481,8 @@ const DOCUMENTED: &[(&str, &str, &str)] = &[
     ("probe-reuse-id1-value", r#"["other","other","more","z"]"#, "[0,0,1,2]"),
     ("probe-reuse-id1-type", "[7,7,7]", "[0,0,1]"),
     ("from-multiple-anchors", r#"["x","x","y","y","x"]"#, "[0,0,1,1,2]"),
+    ("ok-shared-dropper", r#"["dx","dx","dy","dz","dz","dx"]"#, "[0,0,1,2,2,0]"),
+    ("ok-shared-arc-string", r#"["inner-arc","inner-arc","other"]"#, "[0,0,1]"),
 ];
 
 // ------------------------------------------------------------------ call sets
